@@ -1010,7 +1010,7 @@ theorem handlePubrec_sameQ (s : S) (mid : Nat) : SameQ s (s.handlePubrec mid).1 
 theorem handleConnack_sameQ (s : S) (sp : Bool) (result : Nat) (ok : Bool) :
     SameQ s (s.handleConnack sp result ok).1 := by
   unfold handleConnack
-  extract_lets pre s0 s1 s2 shown s3
+  extract_lets pre s0 s1 shown s3
   clear_value pre
   cases pre
   · dsimp only
@@ -1028,8 +1028,7 @@ theorem handleConnack_sameQ (s : S) (sp : Bool) (result : Nat) (ok : Bool) :
         unfold s1; split
         · low_upd
         · exact Low.refl s
-      have h2 : Low [] s s2 := Low.trans0 h1 (by low_upd)
-      have h3 : Low [] s s3 := Low.trans0 h2 (Low.emit_ng _ _ rfl)
+      have h3 : Low [] s s3 := Low.trans0 h1 (Low.emit_ng _ _ rfl)
       split
       · obtain ⟨g, h, hc, hu⟩ := connackResend_same (s3.out.length + 1) s3 0 rcSuccess
         refine SameQ.trans0 h3.same ⟨g, h, hc, ?_⟩
